@@ -431,6 +431,7 @@ func (e *expression) Value(ctx *hcl.EvalContext) (cty.Value, hcl.Diagnostics) {
 		var diags hcl.Diagnostics
 		attrs := map[string]cty.Value{}
 		attrRanges := map[string]hcl.Range{}
+		var keyMarks []cty.ValueMarks
 		known := true
 		for _, jsonAttr := range v.Attrs {
 			// In this one context we allow keys to contain interpolation
@@ -483,6 +484,12 @@ func (e *expression) Value(ctx *hcl.EvalContext) (cty.Value, hcl.Diagnostics) {
 				known = false
 				continue
 			}
+			// As in the native syntax's object constructor, the marks of a
+			// key apply to the object as a whole.
+			name, nameMarks := name.Unmark()
+			if len(nameMarks) != 0 {
+				keyMarks = append(keyMarks, nameMarks)
+			}
 			nameStr := name.AsString()
 			if _, defined := attrs[nameStr]; defined {
 				diags = append(diags, &hcl.Diagnostic{
@@ -503,7 +510,7 @@ func (e *expression) Value(ctx *hcl.EvalContext) (cty.Value, hcl.Diagnostics) {
 			// we can't know what our type will eventually be.
 			return cty.DynamicVal, diags
 		}
-		return cty.ObjectVal(attrs), diags
+		return cty.ObjectVal(attrs).WithMarks(keyMarks...), diags
 	case *nullVal:
 		return cty.NullVal(cty.DynamicPseudoType), nil
 	default:
